@@ -309,7 +309,7 @@ func runC14Phases(r *core.Run) {
 	}
 	for _, cn := range []string{"gfm+align=attr", "gfm+xhtml", "all+attr+autoid"} {
 		cfg := core.MustCfg(cn)
-		s := r.Sub("buffer-phases/"+cn, fmt.Sprintf("%d base documents (a table of 120 rows with three aligned columns; 25 repetitions of a kitchen-sink block) × a leading paragraph of EVERY length 0..%d × the writer failing inside every 4096-byte flush (at 0, at 4096m-1 for every m, at the last byte) × plain and rich writers under %s", len(bases), maxP, cn))
+		s := r.Sub("buffer-phases/"+cn, fmt.Sprintf("%d base documents (a table of 120 rows with three aligned columns; 25 repetitions of a kitchen-sink block) × a leading paragraph of EVERY length 0..%d × the writer failing inside every 4096-byte flush (at 0, at 4096m-1 for every m, at the last byte) × plain and rich writers and a plain writer failing with each of seven well-known errors under %s", len(bases), maxP, cn))
 		type item struct{ b, p int }
 		var items []item
 		for b := range bases {
@@ -335,6 +335,9 @@ func runC14Phases(r *core.Run) {
 					}
 					c14Case(s, cfg, src, ref, k, 0)
 					c14Case(s, cfg, src, ref, k, 3)
+					for v := 9; v < len(c14Variants); v++ {
+						c14Case(s, cfg, src, ref, k, v)
+					}
 				}
 				s.Distinct(core.Hash(src))
 				if ii%(len(items)/4+1) == 0 {
